@@ -1,3 +1,6 @@
 SPECIFICATION Spec
-INVARIANTS CoverageSufficient
+CONSTANTS
+  MaxHist = 3
+  Repeat = TRUE
+INVARIANTS CoverageSufficient RepoIndependent HistorySound InstanceMemoOnlyNetid
 CHECK_DEADLOCK FALSE
